@@ -416,16 +416,21 @@ MBlockBypassJ ==
   /\ ClearRuns({Grp(cb, "bypass")})
   /\ IF RunOK(Grp(cb, "bypass")) THEN Goto("BlockEnd") /\ ch' = [ch EXCEPT ![cb].closed = TRUE] ELSE Goto("BlockPre") /\ UNCHANGED ch
   /\ Silent /\ UNCHANGED <<mem, dur, mreason, dreason, cb, wk, lim, fails, li, am, cl, runs, waiter, wq>> /\ UNCH_M
-\* BlockPreChecks: skipped when there is neither pre nor cont, or pre is already Completed (recovery)
+\* BlockPreChecks: pre || cont initial run.  In a block resumed after a crash pre-checks that are Completed are not asked
+\* again and a cont group that is Completed has had its initial run; a cont group whose run was interrupted (reset by
+\* recovery) gets its run here.
+BlockPreSet(b) ==
+  LET preDone == Has(b, "pre") /\ mem[Grp(b, "pre")].st = CO IN
+  {g \in PreSet(b) : ~(g = Grp(b, "pre") /\ preDone) /\ ~(g = Grp(b, "cont") /\ preDone /\ mem[Grp(b, "cont")].st = CO)}
 MBlockPre ==
   /\ pc = "BlockPre"
-  /\ IF PreSet(cb) = {} \/ (Has(cb, "pre") /\ mem[Grp(cb, "pre")].st = CO)
-       THEN UNCHANGED rn /\ Goto("BlockStartCont") ELSE StartRuns(PreSet(cb)) /\ Goto("BlockPre_j")
+  /\ IF BlockPreSet(cb) = {} THEN UNCHANGED rn /\ Goto("BlockStartCont") ELSE StartRuns(BlockPreSet(cb)) /\ Goto("BlockPre_j")
   /\ Silent /\ UNCH_MR /\ UNCH_M
+BlockPreRunning == {g \in PreSet(cb) : rn[g].st # "idle"}
 MBlockPreJ ==
-  /\ pc = "BlockPre_j" /\ Joined(PreSet(cb))
-  /\ ClearRuns(PreSet(cb))
-  /\ IF \A g \in PreSet(cb) : RunOK(g)
+  /\ pc = "BlockPre_j" /\ Joined(BlockPreRunning)
+  /\ ClearRuns(BlockPreRunning)
+  /\ IF \A g \in BlockPreRunning : RunOK(g)
        THEN Goto("BlockStartCont") /\ UNCHANGED <<mem, dur>> /\ Silent
        ELSE /\ mem' = [mem EXCEPT ![BlkName].st = FA] /\ dur' = [dur EXCEPT ![BlkName].st = FA]
             /\ Emit([EvW(BlkName) EXCEPT !.st = FA]) /\ Goto("BlockDeferred")
@@ -644,8 +649,8 @@ FixSeqsOf(m, b) ==
 FixBlock1(m, b) ==
   IF m[ScopeName(b)].st # RU THEN FixSeqsOf(m, b)      \* a finished block: only its sequences are repaired (after a second crash)
   ELSE IF Has(b, "bypass") /\ m[Grp(b, "bypass")].st = CO THEN [m EXCEPT ![ScopeName(b)].st = CO]
-  ELSE IF GroupFailedM(m, b, "pre") \/ GroupFailedM(m, b, "cont") \/ GroupFailedM(m, b, "post") THEN [m EXCEPT ![ScopeName(b)].st = FA]
-  ELSE FixSeqsOf(m, b)
+  ELSE IF GroupFailedM(m, b, "pre") THEN [m EXCEPT ![ScopeName(b)].st = FA]
+  ELSE FixSeqsOf(m, b)      \* failed cont / post checks fail the block only after its sequences have been dealt with (FixBlock2)
 RECURSIVE FixBlocks(_, _)
 FixBlocks(m, b) == IF b > NBk THEN m ELSE FixBlocks(FixBlock1(m, b), b + 1)
 \* a block that fixBlock will execute sequences for
@@ -688,6 +693,7 @@ MFix ==
 \* after the executed sequences: a block with nothing Completed and nothing Failed goes back to NotStarted; then the plan
 FixBlock2(m, b) ==
   IF m[ScopeName(b)].st # RU THEN m[ScopeName(b)].st
+  ELSE IF GroupFailedM(m, b, "cont") \/ GroupFailedM(m, b, "post") THEN FA
   ELSE IF (\A q \in SeqsB(b) : m[q].st # FA) /\ (\A q \in SeqsB(b) : m[q].st # CO \/ wk[q].st = "gone") THEN NS ELSE RU
 MFixWait ==
   /\ pc = "fix_wait" /\ WorkersQuiet
